@@ -1,5 +1,5 @@
 import SqlModel.Control
-import SqlModel.Generated.ControlIR
+import SqlModel.Generated.ControlInit
 import SqlProofs.InitSafe
 /-!
 # C20 — results depend only on input and options: no call history, no thread effects
